@@ -59,8 +59,9 @@ func skCanon(m *service.Message) string {
 }
 
 type skEventer struct {
-	n   int64
-	out *skOut
+	n    int64
+	out  *skOut
+	slow int // 1: the write callback (writer goroutine) dawdles, 2: the read callback (reader goroutine) dawdles
 
 	mu       sync.Mutex
 	reads    []*service.Message
@@ -125,6 +126,9 @@ func (e *skEventer) OnNotSupportedEvent(m *service.Message) {
 }
 
 func (e *skEventer) OnReadExecutionEvent(m *service.Message) {
+	if e.slow == 2 {
+		time.Sleep(1500 * time.Microsecond)
+	}
 	e.mu.Lock()
 	defer e.mu.Unlock()
 	e.recheck(fmt.Sprintf("ev%d", e.nev))
@@ -137,6 +141,9 @@ func (e *skEventer) OnReadExecutionEvent(m *service.Message) {
 }
 
 func (e *skEventer) OnWriteExecutionEvent(m service.Message) {
+	if e.slow == 1 {
+		time.Sleep(1500 * time.Microsecond) // the reader goes on receiving while this message is still in use
+	}
 	e.mu.Lock()
 	defer e.mu.Unlock()
 	e.recheck(fmt.Sprintf("ev%d", e.nev))
@@ -170,9 +177,10 @@ func SockServeIfChild() {
 	}
 	addr := skFreeAddr()
 	var n int64
+	slow := atoi("0" + os.Getenv("VERIFH_SOCK_SLOW"))
 	g := service.New(service.WithHostPorts(addr),
 		service.WithCustomTerminalEventer(func() service.TerminalEventer {
-			e := &skEventer{n: atomic.AddInt64(&n, 1), out: out}
+			e := &skEventer{n: atomic.AddInt64(&n, 1), out: out, slow: slow}
 			out.line("O %d", e.n)
 			return e
 		}))
@@ -196,7 +204,7 @@ type skServer struct {
 
 var (
 	skSrvMu sync.Mutex
-	skSrv   *skServer
+	skSrvs  = map[int]*skServer{}
 )
 
 func (s *skServer) snapshot() ([]string, bool) {
@@ -222,7 +230,7 @@ func skWait(d time.Duration, pred func() bool) bool {
 	}
 }
 
-func skStart() *skServer {
+func skStart(mode int) *skServer {
 	exe, err := os.Executable()
 	if err != nil {
 		panic(err)
@@ -230,7 +238,7 @@ func skStart() *skServer {
 	for attempt := 0; attempt < 10; attempt++ {
 		s := &skServer{}
 		s.cmd = exec.Command(exe)
-		s.cmd.Env = append(os.Environ(), "VERIFH_SOCK_CHILD=1")
+		s.cmd.Env = append(os.Environ(), "VERIFH_SOCK_CHILD=1", fmt.Sprintf("VERIFH_SOCK_SLOW=%d", mode))
 		s.cmd.Stderr = &s.stderr
 		s.stdin, _ = s.cmd.StdinPipe()
 		so, _ := s.cmd.StdoutPipe()
@@ -296,16 +304,16 @@ func skStart() *skServer {
 	panic("socket server child did not start")
 }
 
-func skGet() *skServer {
+func skGet(mode int) *skServer {
 	skSrvMu.Lock()
 	defer skSrvMu.Unlock()
-	if skSrv != nil {
-		if _, dead := skSrv.snapshot(); !dead {
-			return skSrv
+	if s := skSrvs[mode]; s != nil {
+		if _, dead := s.snapshot(); !dead {
+			return s
 		}
 	}
-	skSrv = skStart()
-	return skSrv
+	skSrvs[mode] = skStart(mode)
+	return skSrvs[mode]
 }
 
 // SkFrame is a frame received by the terminal side, decoded by an independent decoder.
@@ -473,9 +481,13 @@ func (c *skClient) readLoop() {
 }
 
 // SkPlay runs the steps on one fresh connection of the child server.
-func SkPlay(st []SkStep) *SkResult {
+func SkPlay(st []SkStep) *SkResult { return SkPlayMode(st, 0) }
+
+// SkPlayMode: mode 1 = a server whose write callbacks dawdle (the writer is still using a message
+// while the reader receives the next data), mode 2 = read callbacks dawdle (reads coalesce).
+func SkPlayMode(st []SkStep, mode int) *SkResult {
 	res := &SkResult{}
-	s := skGet()
+	s := skGet(mode)
 	base, _ := s.snapshot()
 	nbase := len(base)
 	newLines := func() ([]string, bool) {
@@ -604,4 +616,6 @@ func SyncFrame(phone []byte, ver2019 bool, serial uint16) FrameSpec {
 
 func init() {
 	RegisterOp("sk", func(a []string) string { return SkPlay(SkParseSteps(a)).String() })
+	RegisterOp("sk1", func(a []string) string { return SkPlayMode(SkParseSteps(a), 1).String() })
+	RegisterOp("sk2", func(a []string) string { return SkPlayMode(SkParseSteps(a), 2).String() })
 }
